@@ -49,7 +49,8 @@ def lex(text):
         if c in " \t\r\n":
             i += 1
         elif c == ";":
-            while i < n and text[i] != "\n":
+            # a comment ends at a line-break character (line feed or carriage return)
+            while i < n and text[i] not in "\n\r":
                 i += 1
         elif c == "(" or c == ")":
             toks.append(c)
